@@ -289,6 +289,21 @@ func CodecOf(t TrackSpec) codecs.Codec {
 	panic("unknown codec " + t.Codec)
 }
 
+// CodecOfParams builds a codec object of the track's type carrying parameter set ps.
+func CodecOfParams(t TrackSpec, ps ParamSet) codecs.Codec {
+	switch t.Codec {
+	case "h264":
+		return &codecs.H264{SPS: ps.A, PPS: ps.B}
+	case "h265":
+		return &codecs.H265{VPS: ps.A, SPS: ps.B, PPS: ps.C}
+	case "av1":
+		return &codecs.AV1{SequenceHeader: ps.A}
+	case "vp9":
+		return &codecs.VP9{Width: ps.VP9.Width, Height: ps.VP9.Height, Profile: 0, BitDepth: 8, ChromaSubsampling: 1, ColorRange: ps.VP9.ColorRange}
+	}
+	return CodecOf(t)
+}
+
 // ---- units -----------------------------------------------------------------------------------
 
 // Unit kinds of video ops.
